@@ -159,7 +159,12 @@ func New(data Map, query string, options ...QueryOption) (*Query, error) {
 		}
 	default:
 		{
-			q.data = data
+			// CTE results are registered in the query's own top-level scope,
+			// not in the caller's map
+			q.data = make(Map, len(data))
+			for key, value := range data {
+				q.data[key] = value
+			}
 		}
 	}
 	if q.options.postgresEscapingDialect {
